@@ -64,6 +64,7 @@ pub static DRIVERS: &[Driver] = &[
     Driver { name: "colr", run: crate::drivers2::colr_driver },
     Driver { name: "misc", run: crate::drivers2::misc_driver },
     Driver { name: "psblob", run: crate::drivers3::ps_blob_driver },
+    Driver { name: "glyph", run: glyph_driver },
 ];
 
 pub fn find(name: &str) -> Option<usize> {
@@ -260,7 +261,7 @@ pub fn cmap_driver(data: &[u8], _ctx: &[Vec<u8>], _a: [u32; 3], w: &mut Walker) 
                     }
                 }
                 w.calls += n;
-                w.nodes += n / 16;
+                w.nodes += n;
                 w.u(n);
                 for cp in first {
                     for d in [cp.wrapping_sub(1), cp, cp.wrapping_add(1)] {
@@ -276,21 +277,18 @@ pub fn cmap_driver(data: &[u8], _ctx: &[Vec<u8>], _a: [u32; 3], w: &mut Walker) 
                 // with limits: strictly increasing code points <= char::MAX
                 let mut n = 0u64;
                 let mut first: Vec<u32> = vec![];
-                for (cp, g) in t.iter_with_limits(Cmap12IterLimits::default()) {
+                for (cp, g) in t.iter_with_limits(Cmap12IterLimits::default()).take(8192) {
                     n += 1;
                     w.h.u64(((cp as u64) << 32) | g.to_u32() as u64);
                     if first.len() < 48 {
                         first.push(cp);
                     }
-                    if n > 0x11_0000 {
-                        report_overrun("Cmap12::iter_with_limits yields more than 0x110000 pairs", n);
-                        break;
-                    }
                 }
                 w.calls += n;
-                w.nodes += n / 16;
+                w.nodes += n;
                 w.u(n);
-                let lim = Cmap12IterLimits { max_char: 0xFFFF, glyph_count: 7 };
+                // code points strictly increase and are <= max_char: at most 65536 pairs
+                let lim = Cmap12IterLimits { max_char: 0xFFFF, glyph_count: 0xFFFF };
                 let mut n = 0u64;
                 for (cp, g) in t.iter_with_limits(lim) {
                     n += 1;
@@ -343,7 +341,7 @@ pub fn cmap_driver(data: &[u8], _ctx: &[Vec<u8>], _a: [u32; 3], w: &mut Walker) 
                     }
                 }
                 w.calls += n;
-                w.nodes += n / 16;
+                w.nodes += n;
                 w.u(n);
                 for (cp, sel) in first {
                     w.b(t.map_variant(cp, sel).is_some());
@@ -388,7 +386,7 @@ fn glyph_obs(g: &Glyph, w: &mut Walker) {
                 }
             }
             w.calls += n;
-            w.nodes += n / 8;
+            w.nodes += n;
             w.u(n);
             // read_points_fast requires buffers of num_points
             if np <= 70_000 {
@@ -427,7 +425,8 @@ fn glyph_obs(g: &Glyph, w: &mut Walker) {
                 for v in [t.xx, t.yx, t.xy, t.yy] {
                     w.h.i64(v.to_bits() as i64);
                 }
-                if n > 70_000 {
+                // every component record is at least 4 bytes long
+                if n > c.component_data().len() as u64 + 2 {
                     report_overrun("CompositeGlyph::components yields more items than the glyph has bytes", n);
                     break;
                 }
@@ -439,7 +438,7 @@ fn glyph_obs(g: &Glyph, w: &mut Walker) {
             for (g, f) in c.component_glyphs_and_flags() {
                 k += 1;
                 w.h.u64(((g.to_u16() as u64) << 16) | f.bits() as u64);
-                if k > 70_000 {
+                if k > c.component_data().len() as u64 + 2 {
                     break;
                 }
             }
@@ -466,7 +465,7 @@ fn glyf_loca(glyf_b: &[u8], loca_b: &[u8], a: [u32; 3], w: &mut Walker) {
     w.u(n as u64);
     w.b(loca.is_empty());
     w.b(loca.all_offsets_are_ascending());
-    let mut gids: Vec<u32> = (0..(n as u32).min(2048)).collect();
+    let mut gids: Vec<u32> = (0..(n as u32).min(1024)).collect();
     gids.extend(gid_boundaries(n as u32));
     gids.extend(gid_boundaries(a[1]));
     for gid in gids {
@@ -497,6 +496,14 @@ impl Walker {
                 self.table(c, 1);
             }
         }
+    }
+}
+
+/// a single glyph blob (one entry of glyf)
+pub fn glyph_driver(data: &[u8], _ctx: &[Vec<u8>], _a: [u32; 3], w: &mut Walker) {
+    match Glyph::read(FontData::new(data)) {
+        Ok(g) => glyph_obs(&g, w),
+        Err(e) => rerr(w, &e),
     }
 }
 
@@ -548,7 +555,7 @@ pub fn gvar_driver(data: &[u8], _ctx: &[Vec<u8>], _a: [u32; 3], w: &mut Walker) 
         Err(e) => rerr(w, &e),
     }
     let coords = coords_set();
-    let mut gids: Vec<u32> = (0..n.min(1024)).collect();
+    let mut gids: Vec<u32> = (0..n.min(256)).collect();
     gids.extend(gid_boundaries(n));
     for gid in gids {
         if !w.step() {
@@ -590,13 +597,10 @@ pub fn gvar_driver(data: &[u8], _ctx: &[Vec<u8>], _a: [u32; 3], w: &mut Walker) 
             }
             w.b(tup.has_deltas_for_all_points());
             let mut np = 0u64;
-            for p in tup.point_numbers() {
+            // "all points" legitimately enumerates 0..=65535: step-capped, no count demanded
+            for p in tup.point_numbers().take(2048) {
                 np += 1;
                 w.h.u64(p as u64);
-                if np > lim {
-                    report_overrun("PackedPointNumbers iterator yields more than 128 items per input byte", np);
-                    break;
-                }
             }
             w.calls += np;
             for c in coords.iter() {
@@ -613,7 +617,7 @@ pub fn gvar_driver(data: &[u8], _ctx: &[Vec<u8>], _a: [u32; 3], w: &mut Walker) 
                 }
             }
             w.calls += nd;
-            w.nodes += (np + nd) / 8;
+            w.nodes += np + nd;
             w.u(nd);
         }
         w.u(nt);
@@ -671,7 +675,7 @@ pub fn cvar_driver(data: &[u8], _ctx: &[Vec<u8>], a: [u32; 3], w: &mut Walker) {
                 }
             }
             w.calls += nd;
-            w.nodes += nd / 8;
+            w.nodes += nd;
             w.u(nd);
         }
         w.u(nt);
